@@ -104,9 +104,11 @@ def feed_reactor(p, t, data):
 
 
 def max_send_of(p):
-    v = getattr(p, "_max_len_send", None)
-    if v is None:
-        v = getattr(p, "max_length_send", 0)
+    # (private attributes: if a refactoring renames them this is a machinery failure, not a verdict)
+    if hasattr(p, "_max_len_send"):
+        v = p._max_len_send
+    else:
+        v = p.max_length_send
     return int(v or 0)
 
 
